@@ -388,7 +388,7 @@ func (g *GcsEmu) handleGcsUpdateMetadataRequest(ctx context.Context, baseUrl Htt
 		// Update via json decode.
 		metagen := obj.Metageneration
 		generation, md5Hash, timeCreated := obj.Generation, obj.Md5Hash, obj.TimeCreated
-		err = json.NewDecoder(r.Body).Decode(&obj)
+		err = json.NewDecoder(r.Body).Decode(obj)
 		if err != nil {
 			return fmtErrorfCode(http.StatusBadRequest, "failed to parse request: %w", err)
 		}
